@@ -60,6 +60,18 @@ pub fn entries() -> Vec<Entry> {
         ("ctl.changes", |s| debian_control::lossless::changes::Changes::read(s.as_bytes()).is_ok()),
         ("ctl.changes_relaxed", |s| debian_control::lossless::changes::Changes::read_relaxed(s.as_bytes()).is_ok()),
         ("ctl.changesfile", |s| debian_control::lossless::changes::File::from_str(s).is_ok()),
+        ("ctl.read", |s| debian_control::lossless::Control::read(s.as_bytes()).is_ok()),
+        ("ctl.read_relaxed", |s| debian_control::lossless::Control::read_relaxed(s.as_bytes()).is_ok()),
+        // 4b. the file front ends (`std::fs::read_to_string` + the same readers), on a temporary
+        //     file holding the text
+        ("deb.from_file", |s| with_file(s, |p| deb822_lossless::Deb822::from_file(p).is_ok())),
+        ("deb.from_file_relaxed", |s| with_file(s, |p| deb822_lossless::Deb822::from_file_relaxed(p).is_ok())),
+        ("ctl.from_file", |s| with_file(s, |p| debian_control::lossless::Control::from_file(p).is_ok())),
+        ("ctl.from_file_relaxed", |s| with_file(s, |p| debian_control::lossless::Control::from_file_relaxed(p).is_ok())),
+        ("ctl.changes_from_file", |s| with_file(s, |p| debian_control::lossless::changes::Changes::from_file(p).is_ok())),
+        ("ctl.changes_from_file_relaxed", |s| with_file(s, |p| debian_control::lossless::changes::Changes::from_file_relaxed(p).is_ok())),
+        ("cpr.from_file", |s| with_file(s, |p| debian_copyright::lossless::Copyright::from_file(p).is_ok())),
+        ("cpr.from_file_relaxed", |s| with_file(s, |p| debian_copyright::lossless::Copyright::from_file_relaxed(p).is_ok())),
         // 5. pgp, vcs, identity, typed field values
         ("pgp.strip", |s| debian_control::pgp::strip_pgp_signature(s).is_ok()),
         ("vcs.parsed", |s| debian_control::vcs::ParsedVcs::from_str(s).is_ok()),
@@ -94,6 +106,17 @@ pub fn entries() -> Vec<Entry> {
         ("apt.ynf", |s| apt_sources::YesNoForce::from_str(s).is_ok()),
         ("apt.signature", |s| apt_sources::signature::Signature::from_str(s).is_ok()),
     ]
+}
+
+/// run `f` on the path of a temporary file holding `text` (one file per worker process)
+fn with_file(text: &str, f: fn(&std::path::Path) -> bool) -> bool {
+    let path = std::env::temp_dir().join(format!("verif-total-{}", std::process::id()));
+    if std::fs::write(&path, text.as_bytes()).is_err() {
+        panic!("cannot write {:?}", path);
+    }
+    let r = f(&path);
+    let _ = std::fs::remove_file(&path);
+    r
 }
 
 /// the nine lossy typed document readers are modelled by `Model/TypedDoc.lean`; their requests carry
@@ -162,7 +185,7 @@ pub fn generate_c02(tier: &str, seed: u64, out: &mut Out) {
     let deb_like: Vec<&str> = es_all
         .iter()
         .map(|e| e.0)
-        .filter(|n| n.starts_with("deb.") || n.starts_with("ctl.") || n.starts_with("lctl.") || n.starts_with("cpr.l") || *n == "cpr.relaxed" || n.starts_with("dep3.lo") || *n == "apt.repos" || *n == "pgp.strip")
+        .filter(|n| n.starts_with("deb.") || n.starts_with("ctl.") || n.starts_with("lctl.") || n.starts_with("cpr.l") || *n == "cpr.relaxed" || n.starts_with("cpr.from_file") || n.starts_with("dep3.lo") || *n == "apt.repos" || *n == "pgp.strip")
         .collect();
     let small: Vec<&str> = es_all.iter().map(|e| e.0).filter(|n| !deb_like.contains(n)).collect();
     // (a) deb822-shaped entry points: all strings over the deb822 class alphabet
